@@ -81,6 +81,8 @@ pub enum HOp {
     HumanCheckpoint { file: u8 },
     /// re-lay-out refs/notes/ai with plumbing: 0 flat, 1 aa/.., 2 aa/bb/.., 3 mixed
     Relayout { layout: u8 },
+    /// append a line to a default-ignored or binary file (C19)
+    Extra { which: u8, ai: bool },
 }
 
 impl HOp {
@@ -128,8 +130,24 @@ impl HOp {
             HOp::ReadOnly { .. } => "read-only",
             HOp::HumanCheckpoint { .. } => "human-checkpoint",
             HOp::Relayout { .. } => "notes-relayout",
+            HOp::Extra { .. } => "extra-file",
         }
     }
+}
+
+/// (path, binary) - default-ignored names of unambiguous pattern shapes, and a binary file
+pub const EXTRA_FILES: &[(&str, bool)] = &[
+    ("deps.lock", false),
+    ("sub/Cargo.lock", false),
+    ("app.min.js", false),
+    ("model.generated.ts", false),
+    ("blob.bin", true),
+    ("yarn.lock", false),
+];
+
+pub fn is_default_ignored(path: &str) -> bool {
+    let name = path.rsplit('/').next().unwrap_or(path);
+    name.ends_with(".lock") || name == "Cargo.lock" || name.ends_with(".min.js") || name.contains(".generated.")
 }
 
 #[derive(Clone, Debug, Serialize, Deserialize)]
@@ -1197,6 +1215,30 @@ impl Engine {
                         format!("layout {}: blame AI lines before {:?} / after {:?}", layout % 4, before, after),
                     );
                 }
+            }
+            HOp::Extra { which, ai } => {
+                out.class = OpClass::Edit;
+                let (path, binary) = EXTRA_FILES[*which as usize % EXTRA_FILES.len()];
+                let t = self.w.model.fresh_token();
+                let mut cur = self.w.read_wt(path).unwrap_or_default();
+                if *ai {
+                    self.w.checkpoint_human(&[path]);
+                }
+                if binary {
+                    cur.extend_from_slice(&[0u8, 1, 2, 255]);
+                    cur.extend_from_slice(t.as_bytes());
+                    cur.push(b'\n');
+                } else {
+                    let l = format!("extra {t}\n");
+                    self.w.model.wrote(l.trim_end(), if *ai { Actor::Ai(0) } else { Actor::Human }, true);
+                    cur.extend_from_slice(l.as_bytes());
+                }
+                self.w.write_bytes(path, &cur);
+                if *ai {
+                    self.w.checkpoint_ai(0, &[path]);
+                    self.ai_pending = true;
+                }
+                rep.class(format!("extra:{}", path));
             }
             HOp::HumanCheckpoint { file } => {
                 let p = self.path_of(*file);
